@@ -118,6 +118,41 @@ def run(ctx):
                       "no schedule violating the event property (outside the known class) found among those explored: " + line,
                       {"obligation": "G1 trace equality between model/Event.v (theorems c05_*) and iceoryx2-cal event::common + bit_set / counting_bit_set",
                        "first_divergence": line, "execution": hist, "harness_cmd": cmd, "other_divergences": [m[2] for m in model_mm[1:6]]}, no_input=True)
+    # ---- port level (G3): histories over listener / notifier ports of one event service, local and ipc ----
+    okp, outp, t3 = vlib.cargo_build("g3", bins=["c05"])
+    if not okp:
+        ctx.violation("G3 port-level harness does not build against /repo", {"log": outp[-3000:]}, no_input=True)
+    else:
+        pexe = os.path.join(t3, "c05")
+        pj = []
+        for svc in ("local", "ipc"):
+            pj.append(("port:%s:holes" % svc, [pexe, svc, "holes"]))
+            plen = 4 if (ctx.thorough() or svc == "local") else 3
+            for i in range(8):
+                pj.append(("port:%s:exh:%d" % (svc, i), [pexe, svc, "exh", str(plen), str(i), "8"]))
+            for i in range(4):
+                pj.append(("port:%s:rnd:%d" % (svc, i), [pexe, svc, "rnd", str(4000 if ctx.thorough() else 600), str(i), "4", str(ctx.seed)]))
+        pr = vlib.run_pipelines(pj, driver + " port", timeout=900)
+        ctx.cov["port_level"] = {
+            "histories": pr["cases"], "operations_compared": pr["ops"], "distinct_history_prefixes": pr["distinct_nontrivial"], "opcount": pr["opcount"],
+            "rule": "prologue (notifier + 3 listeners) ; every sequence of length 3 (ipc quick) / 4 over {create/drop listener 0..2, notify, try_wait on listener 0..2} ; "
+                    "epilogue notify + every listener drains; plus the hole shapes (drop the lower-slot listener and keep the higher ones, re-fill the hole, drop the highest, "
+                    "notifier created after the hole) and seeded random histories incl. notifier drop/create, default id, out-of-bounds ids, a 4th listener; real "
+                    "iceoryx2::port::{notifier,listener}, local and ipc; every return value AND every delivery compared with model/EventPort.v",
+        }
+        for lbl, cmd, rc, tail in pr["failed_jobs"]:
+            ctx.violation("port-level job failed (harness or driver crashed): " + lbl, {"cmd": cmd, "rc": rc, "tail": tail}, no_input=True)
+        seenp = set()
+        for lbl, cmd, line in pr["mismatch_lines"]:
+            sig = re.sub(r"\d+", "", line.split("line=[")[1].split(" history-so-far")[0]) if "line=[" in line else line
+            if sig in seenp or len(seenp) >= 3:
+                continue
+            seenp.add(sig)
+            case_no = int(line.split("case=")[1].split()[0])
+            hist = vlib.extract_case(cmd.split(), driver, case_no)
+            opsline = " ".join(h.split()[1] for h in hist if h.startswith("O "))
+            ctx.violation("port level: a notify that returned success did not reach every attached listener / wrong return or delivery under a concrete history: " + line,
+                          {"history": hist, "harness_cmd": cmd, "how_to_rerun": "%s %s hist '%s'" % (pexe, cmd.split()[1], opsline)})
     # coverage of the model's access sites by the compared traces (counted by the driver), source lines from the witness job
     sites = {}
     rc, out = vlib.sh("(" + " ".join(jobs[0][1]) + "; VERIF_NO_XLINE=1 " + exe + " one bitset 10 inf bdt 0,9 0 0,1,1,1,1,1,1) 2>/dev/null | " + driver + " | grep ^SITE", timeout=600)
